@@ -71,6 +71,17 @@ example : (policyToEvaluate parseVersion [(kEnforce, b!"restricted"), (kEnforceV
     ⟨⟨.privileged, .latest⟩, ⟨.privileged, .latest⟩, ⟨.baseline, .latest⟩⟩).1.warn = ⟨.restricted, .mm 1 25⟩ := by
   rw [C05_policy]; decide
 
+
+/-- **`CompareLevels` is the strictness order** privileged < baseline < restricted: it is the comparison of the ranks 0, 1, 2
+    (so it is antisymmetric and transitive, and "warn follows a stricter enforce" means exactly "a higher rank") -/
+def levelRank : Level → Int
+  | .privileged => 0 | .baseline => 1 | .restricted => 2
+
+theorem C05_compare_is_rank (a b : Level) :
+    (compareLevels a b < 0 ↔ levelRank a < levelRank b) ∧ (compareLevels a b = 0 ↔ a = b) ∧
+    (compareLevels a b > 0 ↔ levelRank a > levelRank b) ∧ compareLevels b a = - compareLevels a b := by
+  cases a <;> cases b <;> simp [compareLevels, levelRank]
+
 #print axioms C05_level_iff
 #print axioms C05_level_roundtrip
 #print axioms C05_level_print_parse
@@ -87,4 +98,6 @@ example : (policyToEvaluate parseVersion [(kEnforce, b!"restricted"), (kEnforceV
 #print axioms C05_bad_audit_privileged
 #print axioms C05_bad_warn_privileged
 #print axioms C05_no_labels
+#print axioms C05_compare_is_rank
 end PSA.Props
+
